@@ -25,6 +25,7 @@ def correspondence(ctx):
     rng = random.Random(ctx["seed"] + 6)
     streams, viol, samples = {}, [], []
     U.time_stream(rng, ctx["tier"] == "thorough", streams, viol, samples)
+    U.year_dataset_stream(rng, ctx["tier"] == "thorough", streams, viol, samples)
     return {"streams": streams, "violations": viol, "samples": samples}
 
 
